@@ -78,6 +78,12 @@ CHECKS["C04"] = dict(
     ref="DESIGN.md section 4 / C04",
 )
 
+CHECKS["C01"] = dict(
+    technique="static analysis: exhaustiveness of generator dispatch over the classes each dialect's parser chain constructs (AST + import-introspected dispatch tables), fixpoint closure of operator and time-format tables across tokenizer/parser/generator",
+    text="For all 34 SQL dialect classes: every expression class the dialect's parser chain can construct must be printable by the same dialect's generator (16k class-dialect pairs); every table-driven binary operator printed by self.binary(e, OP) must tokenize and re-parse to the same class (base) or to a class printed identically (500+ obligations); the effective time/format mapping tables must be idempotent on the generator's image (900+ entries). These are necessary conditions of the round-trip fixpoint visible in tables; precedence, nesting and bespoke parse/print pairs are run-time valued and NOT decided.",
+    ref="DESIGN.md section 4 / C01",
+)
+
 NOT_APPLICABLE = {
     "C02": "oracle is SQLite/DuckDB evaluation semantics (NULL ordering, division, || precedence); not present in the source, no structural clause implies row equality",
     "C03": "result-multiset equality of optimized vs original query over all databases; guards are semantic conditions, only checkable as frozen fragments (false-alarm prone)",
